@@ -17,6 +17,8 @@ def parsePresEvs : List String → List PresEv
   | "SU" :: a :: r :: l :: f :: ac :: rest => .setUser (num a) (num r) (hexb l) (f == "1") (hexb ac) :: parsePresEvs rest
   | "D" :: a :: rest => .disconnect (num a) :: parsePresEvs rest
   | "F" :: a :: r :: rest => .fetch (num a) (num r) :: parsePresEvs rest
+  | "AW" :: a :: rest => .away (num a) :: parsePresEvs rest
+  | "WK" :: a :: rest => .wake (num a) :: parsePresEvs rest
   | "IM" :: a :: r :: t :: m :: q :: rest => .sendIM (num a) (num r) (num t) (hexb m) (optHex q) :: parsePresEvs rest
   | _ => []
 
